@@ -60,6 +60,7 @@ type CaseStats struct {
 	nontrivial   bool
 	sample       any
 	extra        map[string]int64
+	mu           sync.Mutex // cases with several goroutines record from all of them
 }
 
 // Class counts the case under a named class.
@@ -67,6 +68,8 @@ func (c *CaseStats) Class(name string) {
 	if c == nil {
 		return
 	}
+	c.mu.Lock()
+	defer c.mu.Unlock()
 	for _, n := range c.classes {
 		if n == name {
 			return
@@ -81,25 +84,38 @@ func (c *CaseStats) Classf(f string, a ...any) { c.Class(fmt.Sprintf(f, a...)) }
 // NonTrivial marks the case non-trivial by the property's stated rule.
 func (c *CaseStats) NonTrivial() {
 	if c != nil {
+		c.mu.Lock()
 		c.nontrivial = true
+		c.mu.Unlock()
 	}
 }
 
 // IsNonTrivial reports whether NonTrivial was called.
-func (c *CaseStats) IsNonTrivial() bool { return c != nil && c.nontrivial }
+func (c *CaseStats) IsNonTrivial() bool {
+	if c == nil {
+		return false
+	}
+	c.mu.Lock()
+	defer c.mu.Unlock()
+	return c.nontrivial
+}
 
 // Excluded records that part of the oracle was skipped for a named, by
 // construction, reason (a known finding's shape).
 func (c *CaseStats) Excluded(name string) {
 	if c != nil {
+		c.mu.Lock()
 		c.excluded = append(c.excluded, name)
+		c.mu.Unlock()
 	}
 }
 
 // Inconclusive records that the case could not reach a verdict.
 func (c *CaseStats) Inconclusive(name string) {
 	if c != nil {
+		c.mu.Lock()
 		c.inconclusive = append(c.inconclusive, name)
+		c.mu.Unlock()
 	}
 }
 
@@ -108,6 +124,8 @@ func (c *CaseStats) Add(name string, n int64) {
 	if c == nil {
 		return
 	}
+	c.mu.Lock()
+	defer c.mu.Unlock()
 	if c.extra == nil {
 		c.extra = map[string]int64{}
 	}
